@@ -68,9 +68,28 @@ type Engine struct {
 
 var directiveRe = regexp.MustCompile(`(?m)^//\s*vh:(\w+)\s*(.*)$`)
 
+const toolchainBin = "/root/go/pkg/mod/golang.org/toolchain@v0.0.1-go1.24.0.linux-amd64/bin"
+
+// SetupProcessEnv makes this process (and children found via PATH) use the
+// go1.24.0 toolchain offline.
+func SetupProcessEnv() {
+	if !strings.HasPrefix(os.Getenv("PATH"), toolchainBin) {
+		os.Setenv("PATH", toolchainBin+":"+os.Getenv("PATH"))
+	}
+	os.Setenv("GOFLAGS", "-mod=mod")
+	os.Setenv("GOTOOLCHAIN", "local")
+	os.Setenv("GOPROXY", "off")
+	os.Setenv("GOSUMDB", "off")
+}
+
 func goEnv() []string {
+	SetupProcessEnv()
+	return os.Environ()
+}
+
+func goEnvOld() []string {
 	env := os.Environ()
-	tc := "/root/go/pkg/mod/golang.org/toolchain@v0.0.1-go1.24.0.linux-amd64/bin"
+	tc := toolchainBin
 	out := []string{}
 	for _, e := range env {
 		if strings.HasPrefix(e, "PATH=") {
